@@ -153,4 +153,68 @@ Section CORS.
       rewrite O in *. exact H. }
     eapply serve_jwt_rejects; eauto.
   Qed.
+  (* ---- the router cleans the path for the lookup, the gates see the request as received ---- *)
+
+  Notation serve_recv := (serve_recv ulfix mac rsa_dec cmac sha aes_ok E D b64enc b64dec).
+  Notation serve_all_recv := (serve_all_recv ulfix mac rsa_dec cmac sha aes_ok E D b64enc b64dec).
+  Notation serve_bound := (serve_bound ulfix mac rsa_dec cmac sha aes_ok E D b64enc b64dec).
+
+  Lemma serve_recv_id : forall cors limit tab st q,
+    serve_recv cors (fun p => p) limit tab st q = serve_cors cors limit tab st q.
+  Proof.
+    intros cors limit tab st q. unfold Server.serve_recv, Server.serve_cors, Server.serve, routed, q_route.
+    destruct cors; cbn [andb]; [destruct (r_method (q_cs q) =? m_options); reflexivity|reflexivity].
+  Qed.
+
+  (* the gate with a cleaning router: the route that ran is the one the CLEANED path names, it
+     belongs to group g, and the credentials of the request AS RECEIVED are valid for g *)
+  Theorem serve_recv_gate : forall cors clean limit gs st q st' o,
+    serve_recv cors clean limit (fst (bind gs [])) st q = (st', o) ->
+    o_ran (s_out o) = true ->
+    exists g, owner (routed clean q) gs = Some g /\ s_route o = Some (routed clean q) /\
+              ValidFor key_ok mac rsa_dec cmac sha g q.
+  Proof.
+    intros cors clean limit gs st q st' o H Ran. unfold Server.serve_recv in H.
+    destruct (cors && (r_method (q_cs q) =? m_options)).
+    { inversion H; subst o. cbn in Ran. discriminate. }
+    destruct (find_bound (routed clean q) (fst (bind gs []))) as [b|] eqn:F.
+    - apply bind_find in F. destruct F as [F|(_ & g & O & Bg & NV)]; [cbn in F; discriminate|].
+      subst b. exists g. split; [exact O|]. eapply serve_bound_ran; eauto.
+    - inversion H; subst o. cbn in Ran. discriminate.
+  Qed.
+
+  Definition GateOkR (clean : Z -> Z) (gs : list group) (q : sreq) (o : sout) : Prop :=
+    o_ran (s_out o) = true ->
+    exists g, owner (routed clean q) gs = Some g /\ s_route o = Some (routed clean q) /\
+              ValidFor key_ok mac rsa_dec cmac sha g q.
+
+  Theorem serve_all_recv_gate : forall cors clean limit gs qs st,
+    Forall2 (GateOkR clean gs) qs (serve_all_recv cors clean limit (fst (bind gs [])) st qs).
+  Proof.
+    intros cors clean limit gs qs. induction qs as [|q qs IH]; intros st; cbn [Server.serve_all_recv].
+    - constructor.
+    - destruct (serve_recv cors clean limit (fst (bind gs [])) st q) as [st' o] eqn:S.
+      constructor; [|apply IH].
+      intros Ran. eapply serve_recv_gate; eauto.
+  Qed.
+
+  (* THE SIGNATURE COVERS THE PATH AS RECEIVED.  Whatever the router's cleaning maps onto the
+     route: if the handler of a strict signature group ran for a verified method and the request
+     has no X-Request-Uri header, the request is signed for (r_path, r_query) — the spelling the
+     client sent — not for the cleaned path the route was found under. *)
+  Theorem recv_signature_covers_received_path : forall cors clean limit gs st q st' o,
+    serve_recv cors clean limit (fst (bind gs [])) st q = (st', o) ->
+    o_ran (s_out o) = true ->
+    r_xuri (q_cs q) = None ->
+    exists g, owner (routed clean q) gs = Some g /\
+      forall sc, g_sig g = Some sc -> sg_strict sc = true -> checked (r_method (q_cs q)) = true ->
+        SignedRequest rsa_dec cmac sha (sg_keys sc) (sg_tol sc) (q_now q) (q_cs q)
+                      (r_path (q_cs q), r_query (q_cs q)).
+  Proof.
+    intros cors clean limit gs st q st' o H Ran X.
+    destruct (serve_recv_gate _ _ _ _ _ _ _ _ H Ran) as (g & O & _ & _ & V).
+    exists g. split; [exact O|].
+    intros sc Gs St Ck. destruct (V sc Gs St Ck) as (_ & _ & S).
+    unfold path_query in S. rewrite X in S. exact S.
+  Qed.
 End CORS.
